@@ -7,11 +7,11 @@ CHECK = {
     "level": "model_checking",
     "engines": ["space"],
     "technique": "explicit-state BFS over admission/hit/advance/purge/prefetch event histories on the real cache pipeline under a virtual clock, lock-step against a reference lifetime model; every serving route checked in every state",
-    "level_text": "Breadth-first search over event histories (admissions of positive / signed / alias / negative / locally validated negative answers with TTL, RRSIG-expiry, SOA-minimum and delegation-lease parameters; clock advances around every boundary; purge; prefetch start/complete/withdrawal orders), each history replayed on a fresh real Cache with time.Now swapped for a virtual clock; in every reached state every cached piece is read through the message path, byte fast path, wire-born strict path and Store.Get and judged against the reference deadline (min of floored TTLs, RRSIG expiry, SOA minimum, lease; composed alias inherits its pieces), TTL shown <= remaining, TTL non-increasing per stored entry.",
+    "level_text": "Breadth-first search over event histories (admissions of positive / signed / alias / two-lap alias (middle name answered with a bare CNAME by a local handler in front of the cache, so the cache's own chase walks two laps) / negative / locally validated negative answers with TTL, RRSIG-expiry, SOA-minimum and delegation-lease parameters; clock advances around every boundary; purge; prefetch start/complete/withdrawal orders), each history replayed on a fresh real Cache with time.Now swapped for a virtual clock; in every reached state every cached piece is read through the message path, byte fast path, wire-born strict path and Store.Get and judged against the reference deadline (min of floored TTLs, RRSIG expiry, SOA minimum, lease; composed alias inherits its pieces), TTL shown <= remaining, TTL non-increasing per stored entry.",
     "level_note": "Trusted: the reference model's reading that the 5 s floor applies to every TTL-derived bound (incl. RRSIG expiry and SOA minimum) and that only the delegation lease overrides it; the scripted stub stands in for the resolver (it folds the lease into ResponseMeta the way the resolver does). Wall-clock steps (NTP) are outside the virtual clock.",
     "rule": "state = (reference pieces with remaining lifetime) + (real cache raw entries/cuts/proofs with remaining lifetime), 100 ms resolution; transitions = one event applied by replaying the history on a fresh Cache; 'nontrivial' = states holding >= 2 live pieces",
     "assumptions": ["virtual clock only moves forward; real elapsed time inside one history (milliseconds) is far below the 1 s event granularity"],
-    "bounds": {"quick": "17-event alphabet, BFS depth 4; prefetch orders depth 5", "thorough": "23-event alphabet, BFS depth 6 (time-capped)"},
+    "bounds": {"quick": "23-event alphabet, BFS depth 4; prefetch orders depth 5", "thorough": "30-event alphabet, BFS depth 6 (time-capped)"},
     "units": {
         "hist": {"pkg": "middleware/cache", "run": "TestVerifC04Hist", "harness": _H, "rewrite": _RW, "stub_tests": ["middleware/cache"],
                  "budget_s": {"quick": 70, "thorough": 800}},
